@@ -79,6 +79,8 @@ impl AttrStore {
     }
 
     fn compute_multiline_impl(&mut self, node: &SyntaxNode) -> bool {
+        #[cfg(typstyle_verif)]
+        crate::verif::point("attr:multiline");
         let mut is_multiline = false;
         let mut seen_space = false;
         for child in node.children() {
@@ -118,6 +120,8 @@ impl AttrStore {
     }
 
     fn compute_no_format_impl(&mut self, node: &SyntaxNode) {
+        #[cfg(typstyle_verif)]
+        crate::verif::point("attr:no-format");
         let mut disable_next = false;
         let mut commented = false;
         for child in node.children() {
